@@ -39,6 +39,12 @@ def analyse(prog, fi, method, pY, pR, pbr, pm):
 
 
 def check(prog, run):
+    hankel_rules(prog, run)
+    method_rule(prog, run)
+
+
+def hankel_rules(prog, run):
+    """the structure of the matrix build_hank returns, per method (shared with C01 through run.under(...))"""
     from .. import hankdom
     run.rule("R-lag", "cov_mm/dat: lag(i, c) = origin_future(i) - origin_past(c) = i + c + 1, equal window lengths and weights, windows inside "
              "the record, future windows of ALL channels, past windows of the REFERENCE channels; cov_R: block (i, c) correlates Y[:, :Ndat-k] with "
@@ -102,7 +108,9 @@ def check(prog, run):
             f1, f2 = stack_facts(s1, "c"), stack_facts(s2, "i")
             obd("stack order [past(reference); future(all)]", f1["array"] == pR and f2["array"] != pR, f"first block from `{f1['array']}`, second from `{f2['array']}`", f"{f1['array']},{f2['array']}")
             rows_past = s1.n * P.s("nR")
-            ok = cut.rlo is not None and cut.chi is not None and cut.rlo == rows_past and cut.chi == rows_past and cut.rhi is None and cut.clo is None
+            rows_all = rows_past + s2.n * P.s("nY")
+            ok = cut.rlo is not None and cut.chi is not None and cut.rlo == rows_past and cut.chi == rows_past and (cut.rhi is None or cut.rhi == rows_all) \
+                and (cut.clo is None or cut.clo == P.c(0))
             obd("returned block: rows >= rows(past), columns < rows(past)", ok, f"rows from {cut.rlo!r}, columns up to {cut.chi!r}, rows(past) = {rows_past!r}", f"{cut.rlo!r};{cut.chi!r}")
             fut, past = f2, f1
         results[method] = (fut, past)
@@ -187,6 +195,11 @@ def check(prog, run):
             oklo = all(nonneg(x) for x in vals)
             ob("R-lag", "largest lag used is computed", okhi and oklo, f"lag index {idxp!r} over its loops takes {sorted({repr(x) for x in vals})}, lags computed: {length!r}",
                f"{idxp!r}/{length!r}", rnode, cfg)
+
+
+def method_rule(prog, run):
+    fi = prog.func(FN)
+    pm = astq.params_of(fi.node)[0][3]
     # ------------------------------------------------------------ which method is built: run parameter first, class default as fallback
     run.rule("R-method", "every SSI run() hands `run_params.method` (falling back to the class default only when it is not set) to the Hankel builder", 2)
 
